@@ -159,6 +159,7 @@ func (p *PackageProgress) stageStreamData() error {
 				keys = append(keys, key)
 			}
 			sort.Ints(keys)
+			pack.StreamBody = nil // 完成后又收到重传分片时 重新组装 不能在旧内容后面追加
 			for _, key := range keys {
 				pack.StreamBody = append(pack.StreamBody, pack.OffsetDataRecord[key]...)
 			}
